@@ -2,6 +2,11 @@
 """Writes seeded/INDEX.md (and prints the same table) from seeded/*/meta.json."""
 import glob, json, os, re
 HERE = os.path.dirname(os.path.dirname(os.path.abspath(__file__)))
+FIRST = {}
+try:
+    FIRST = json.load(open(os.path.join(HERE, "seeded", "first_eval.json")))
+except OSError:
+    pass
 rows = []
 for f in sorted(glob.glob(os.path.join(HERE, "seeded", "*", "meta.json"))):
     m = json.load(open(f))
@@ -11,7 +16,7 @@ for f in sorted(glob.glob(os.path.join(HERE, "seeded", "*", "meta.json"))):
     pf = os.path.join(os.path.dirname(f), "patch.diff")
     files = sorted(set(re.findall(r"^\+\+\+ b/(\S+)", open(pf).read(), re.M))) if os.path.exists(pf) else []
     det = m.get("detected_by") or []
-    first_run = m.get("first_evaluation_detected_by")
+    first_run = m.get("first_evaluation_detected_by", FIRST.get(m["name"]))
     rows.append((m["name"], m["property"], ", ".join(os.path.basename(x) for x in files), (title or first)[:110].replace("|", "/"),
                  "yes" if m.get("confirmed") else "NO", ", ".join(det) or "-", "" if first_run is None else (", ".join(first_run) or "none")))
 out = ["| change | property | file | what | confirmed | caught by (current checks) | caught at first evaluation |", "|---|---|---|---|---|---|---|"]
